@@ -51,21 +51,26 @@ func (r *remoteHTTPProxyCache) UploadFile(item backendproxy.UploadReq) {
 
 	url := r.requestURL(item.Hash, item.Kind)
 
-	req, err := http.NewRequestWithContext(context.Background(), http.MethodHead, url, nil)
-	if err != nil {
-		r.errorLogger.Printf("INTERNAL ERROR, FAILED TO SETUP HTTP PROXY UPLOAD %s: %s", url, err)
-		_ = item.Rc.Close()
-		return
+	// Only content-addressed blobs can be skipped when the backend already
+	// has the key: AC and RAW entries are mutable, an accepted overwrite
+	// must reach the backend.
+	if item.Kind == cache.CAS {
+		req, err := http.NewRequestWithContext(context.Background(), http.MethodHead, url, nil)
+		if err != nil {
+			r.errorLogger.Printf("INTERNAL ERROR, FAILED TO SETUP HTTP PROXY UPLOAD %s: %s", url, err)
+			_ = item.Rc.Close()
+			return
+		}
+
+		rsp, err := r.remote.Do(req)
+		if err == nil && rsp.StatusCode == http.StatusOK {
+			r.accessLogger.Printf("SKIP UPLOAD %s", item.Hash)
+			_ = item.Rc.Close()
+			return
+		}
 	}
 
-	rsp, err := r.remote.Do(req)
-	if err == nil && rsp.StatusCode == http.StatusOK {
-		r.accessLogger.Printf("SKIP UPLOAD %s", item.Hash)
-		_ = item.Rc.Close()
-		return
-	}
-
-	req, err = http.NewRequestWithContext(context.Background(), http.MethodPut, url, item.Rc)
+	req, err := http.NewRequestWithContext(context.Background(), http.MethodPut, url, item.Rc)
 	if err != nil {
 		r.errorLogger.Printf("INTERNAL ERROR, FAILED TO SETUP HTTP PROXY UPLOAD %s: %s", url, err)
 
@@ -78,7 +83,7 @@ func (r *remoteHTTPProxyCache) UploadFile(item backendproxy.UploadReq) {
 	req.Header.Set("Content-Type", "application/octet-stream")
 	req.ContentLength = item.SizeOnDisk
 
-	rsp, err = r.remote.Do(req)
+	rsp, err := r.remote.Do(req)
 	if err != nil {
 		r.errorLogger.Printf("HTTP %s UPLOAD: %s", url, err.Error())
 		return
